@@ -60,6 +60,9 @@ def base_cells(tier):
                         ("hexagonal", "standard"), ("trigonal", "rhombohedral"), ("cubic", "standard")):
         cs += alph.conforming_cells(sysname, cc, "thorough")
     cs += [[3.0, 10.0, 11.0, 90.0, 90.0, 90.0], [2.5, 9.0, 20.0, 80.0, 85.0, 95.0], [5.0, 6.0, 7.0, 90.0, 90.0, 90.0], [3.0, 4.0, 5.0, 80.0, 95.0, 100.0], [9.07599708738, 6.05007626616, 43.921476668199631, 90.0, 90.0, 90.0], [4.0, 9.0, 30.0, 75.0, 85.0, 95.0]]
+    # cells a few 1e-6 degrees inside a reduction boundary: two candidates for one slot differ by ~1e-7 A (not a tie, not far apart either)
+    cs += [[5.0, 5.0, 7.0, 90.0, 90.0, 119.999996], [5.0, 5.0, 7.0, 90.0, 90.0, 60.000004], [6.0, 6.0, 6.0, 90.0, 119.999997, 90.0],
+           [4.0, 5.0, 7.3, 90.0, 90.0, math.degrees(math.acos(0.4)) + 4e-6]]
     if tier == "thorough":
         cs += alph.cells("quick", lens=[(3, 4, 5), (5.1, 6.3, 7.7)], angs=[60, 75, 90, 105, 120])
     out = []
@@ -233,6 +236,18 @@ def check_case(case):
     # processed in single precision and the reduction may then settle on another description: single precision left out)
     from ..core import variants
 
+    # history: the caller keeps (and edits) the returned cell; a later call - also for ANOTHER lattice, also of a_to_cell / ubi_to_cell, which
+    # reduce_cell's result may share storage with - must not write into it
+    from ..core import twice
+
+    twice(r, "%s:cell=%s:reduce_cell" % (mname, [round(x, 6) for x in cell0]), mod.reduce_cell, [float(x) for x in cell0])
+    held = mod.reduce_cell([float(x) for x in cell0])
+    snap = [float(x) for x in held]
+    mod.reduce_cell([4.4, 5.5, 6.6, 85.0, 95.0, 100.0])
+    mod.a_to_cell(O.a_ref([7.0, 8.0, 9.0, 80.0, 85.0, 95.0]))
+    mod.ubi_to_cell(np.linalg.inv(O.b_ref([7.5, 8.5, 9.5, 81.0, 86.0, 96.0])))
+    r.require([float(x) for x in held] == snap, "%s:cell=%s:held-result" % (mname, [round(x, 6) for x in cell0]),
+              "a reduced cell already returned is not changed by later calls of reduce_cell / a_to_cell / ubi_to_cell for other lattices", snap, [float(x) for x in held])
     variants(r, "%s:cell=%s:reduce_cell" % (mname, [round(x, 6) for x in cell0]), mod.reduce_cell, [[float(x) for x in cell0], 3], 0, 1e-9, None)
     variants(r, "%s:cell=%s:reduce_cell" % (mname, [round(x, 6) for x in cell0]), mod.reduce_cell, [[float(x) for x in cell0], 3], 1, 1e-9, None,
              skip=("float", "np.float64", "0-d array"))
